@@ -824,6 +824,81 @@ def gen_C05_ev(rng):
     return ctx.text()
 
 
+def gen_C01_ev(rng):
+    """edge-valued forests: the same computation requested again (compute-table hit),
+    commuted, and on a copy of an operand must return the identical edge -- including
+    when the result is the transparent edge (+infinity everywhere / 0 everywhere) reached
+    from operands with non-trivial root edge values (disjoint supports)"""
+    ctx = Ctx(rng)
+    evstar = rng.random() < 0.3
+    rel = True if evstar else rng.random() < 0.4
+    ctx.emit("init " + rand_ctopts(rng))
+    d = rand_domain(rng, "D", rel, 150, 3)
+    ctx.emit(d.decl())
+    ctx.doms.append(d)
+    rules = RULES_REL if rel else RULES_SET
+    if evstar:
+        f = Forest("E", d, rel, "real", "evt", rng.choice(rules), rand_opts(rng))
+    else:
+        f = Forest("E", d, rel, "int", "evp", rng.choice(rules), rand_opts(rng))
+    ctx.emit(f.decl())
+    ctx.forests = [f]
+    top = len(d.sizes) - 1
+    nt = d.sizes[top]
+
+    def coll(topval):
+        """minterms that fix the top variable to topval: supports with different
+        topval are disjoint"""
+        nm = ctx.fresh()
+        if evstar:
+            parts = ["coll", nm, f.name, "max", "0"]
+            vals = ["64", "128", "32", "256"]
+        else:
+            parts = ["coll", nm, f.name, "min", "inf"]
+            vals = ["1", "2", "3", "5", "8"]
+        for _ in range(rng.choice([1, 1, 2, 3])):
+            pos = rand_pos_rel(rng, d, rng.choice([0, .3, .6]), rng.choice([0, .3])) if rel \
+                else rand_pos_set(rng, d, rng.choice([0, .3, .6]))
+            # positions list the top variable last (sets) / its pair last (relations)
+            if rel:
+                pos[-2] = str(topval)
+            else:
+                pos[-1] = str(topval)
+            parts += [";"] + pos + ["=>", rng.choice(vals)]
+        ctx.emit(" ".join(parts))
+        ctx.edges[nm] = f
+        return nm
+
+    for _ in range(rng.randint(1, 3)):
+        tv = rng.sample(range(nt), 2) if rng.random() < 0.75 else [rng.randrange(nt)] * 2
+        a, b = coll(tv[0]), coll(tv[1])
+        ops = ["mult", "max", "min"] if evstar else ["max", "max", "min", "plus"]
+        op = rng.choice(ops)
+        r = []
+        for (x, y) in [(a, b), (a, b), (b, a)]:
+            n = ctx.fresh()
+            ctx.emit("apply %s %s %s %s %s" % (n, f.name, op, x, y))
+            ctx.edges[n] = f
+            r.append(n)
+        c = ctx.fresh()
+        ctx.emit("copyedge %s %s" % (c, a))
+        ctx.edges[c] = f
+        n = ctx.fresh()
+        ctx.emit("apply %s %s %s %s %s" % (n, f.name, op, c, b))
+        ctx.edges[n] = f
+        r.append(n)
+        for x in r[1:]:
+            ctx.emit("eq %s %s" % (r[0], x))
+        if rng.random() < 0.5:
+            ctx.emit("clearct")
+            n = ctx.fresh()
+            ctx.emit("apply %s %s %s %s %s" % (n, f.name, op, a, b))
+            ctx.edges[n] = f
+            ctx.emit("eq %s %s" % (r[0], n))
+    ctx.emit("audit E")
+    return ctx.text()
+
+
 def gen_C01(rng):
     """the same function along several construction paths; all must be =="""
     ctx = Ctx(rng)
@@ -1275,6 +1350,66 @@ def gen_C06_nodes(rng, nops=None):
     return "\n".join(L) + "\n"
 
 
+def gen_C18_big(rng):
+    """histories with requests of the order of the managers' current array capacity
+    (1024 slots initially, growing by halves): the array is filled with medium chunks
+    and then asked for one chunk between half and the whole of what it holds -- the
+    request that makes the array grow by more than its growth factor"""
+    L = ["init"]
+    style = rng.choice(["orig", "array", "heap", "orig", "array", "heap", "malloc", "free"])
+    gran = rng.choice([4, 8])
+    minsize = 1 if style == "free" else rng.choice([5, 5, 4, 6])
+    L.append("mm new M %s %d %d" % (style, gran, minsize))
+    live = []
+    nid = 0
+    used = 0
+    cap = 1024
+    for phase in range(rng.randint(2, 5)):
+        # fill up to somewhere below the capacity
+        target = int(cap * rng.choice([0.5, 0.7, 0.85, 0.95]))
+        while used < target:
+            sz = rng.choice([rng.randint(50, 150), rng.randint(80, 120), rng.randint(minsize, 30)])
+            if style == "free":
+                sz = min(sz, 15)
+            L.append("mm req M %d" % sz)
+            live.append((nid, sz))
+            nid += 1
+            used += sz
+            if style == "free" and nid > 300:
+                break
+        L.append("mm check M")
+        if rng.random() < 0.4 and len(live) > 3:
+            for _ in range(rng.randint(1, 3)):
+                i, sz = live.pop(rng.randrange(len(live)))
+                L.append("mm rec M %d" % i)
+                used -= sz
+        # the big one
+        big = int(cap * rng.choice([0.5, 0.6, 0.7, 0.8, 0.9, 1.0, 1.3]))
+        if style == "free":
+            big = 15
+        L.append("mm req M %d" % big)
+        live.append((nid, big))
+        nid += 1
+        used += big
+        L.append("mm check M")
+        # a few more requests so that the array has to move again
+        for _ in range(rng.randint(1, 4)):
+            sz = rng.randint(minsize, 60) if style != "free" else rng.randint(1, 15)
+            L.append("mm req M %d" % sz)
+            live.append((nid, sz))
+            nid += 1
+            used += sz
+        L.append("mm check M")
+        while cap < used * 1.2:
+            cap += cap // 2
+    rng.shuffle(live)
+    for i, _ in live[: len(live) // 2]:
+        L.append("mm rec M %d" % i)
+    L.append("mm check M")
+    L.append("mm del M")
+    return "\n".join(L) + "\n"
+
+
 def gen_C18_growing(rng):
     """histories whose maximum request grows over time: equal-sized chunks are
     recycled in adjacent runs (which merge into one hole larger than anything
@@ -1403,6 +1538,38 @@ def gen_C15(rng):
         ctx.emit("card %s" % a)
         ctx.emit("getelem %s -2 %d" % (x, ctx.doms[0].npoints(False) + 1))
         ctx.emit("iter %s" % a)
+    return ctx.text()
+
+
+def gen_C10_idx(rng):
+    """copies out of an index-set forest: into EV+ forests of both rules (ranks kept,
+    non-members stay +infinity) and from there on"""
+    ctx = Ctx(rng)
+    preamble(ctx, False, ranges=("bool",), nforests=rng.choice([1, 2]), maxpts=200)
+    d = ctx.doms[0]
+    fi = Forest("FI", d, False, "int", "idx", "fr", rand_opts(rng))
+    ctx.emit(fi.decl())
+    evs = []
+    for i, rl in enumerate(rng.sample(RULES_SET, rng.choice([1, 2]))):
+        fe = Forest("E%d" % i, d, False, "int", "evp", rl, rand_opts(rng))
+        ctx.emit(fe.decl())
+        evs.append(fe)
+    for k in range(rng.randint(1, 3)):
+        f = rng.choice(ctx.forests)
+        a = gen_coll(ctx, f, nmax=rng.choice([2, 4, 10]))
+        x = "X%d" % k
+        ctx.emit("unary %s FI index %s" % (x, a))
+        for fe in evs:
+            c = ctx.fresh()
+            ctx.emit("unary %s %s copy %s" % (c, fe.name, x))
+            ctx.edges[c] = fe
+            if len(evs) > 1 and rng.random() < 0.5:
+                other = [g for g in evs if g is not fe][0]
+                c2 = ctx.fresh()
+                ctx.emit("unary %s %s copy %s" % (c2, other.name, c))
+                ctx.edges[c2] = other
+    for fe in evs:
+        ctx.emit("audit %s" % fe.name)
     return ctx.text()
 
 
@@ -1820,6 +1987,91 @@ def gen_C20_skip(rng):
     return ctx.text()
 
 
+def gen_C20_dense(rng):
+    """saturation by events on tiny domains with dense event systems: a "clock"
+    variable at the top moves back and forth between its values while other events
+    free the lower variables, so that whole sub-spaces below an index become complete
+    (the terminal TRUE in a fully-reduced set forest) while that index has already
+    been explored, and states found late enable transitions that were not enabled
+    before"""
+    ctx = Ctx(rng)
+    ctx.emit("init " + rand_ctopts(rng))
+    k = rng.choice([2, 2, 3])
+    sizes = [rng.choice([2, 2, 3]) for _ in range(k)]
+    sizes[k - 1] = rng.choice([2, 3, 3, 4])
+    d = Domain("D", sizes)
+    ctx.emit(d.decl())
+    fs = Forest("S", d, False, "bool", "mt", rng.choice(["fr", "fr", "fr", "fr", "fr", "qr"]), rand_opts(rng))
+    fm = Forest("M", d, True, "bool", "mt", "ir", rand_opts(rng))
+    ctx.emit(fs.decl())
+    ctx.emit(fm.decl())
+    for rnd in range(rng.randint(1, 3)):
+        s = "s%d" % rnd
+        parts = ["coll", s, "S", "max", "0", ";"] + [str(rng.choice([0, 0, rng.randrange(sizes[v])])) for v in range(k)] + ["=>", "1"]
+        ctx.emit(" ".join(parts))
+        evs = []
+
+        def event(minterms):
+            name = "e%d_%d" % (rnd, len(evs))
+            parts = ["coll", name, "M", "max", "0"]
+            for pos in minterms:
+                parts += [";"] + pos + ["=>", "1"]
+            ctx.emit(" ".join(parts))
+            evs.append(name)
+
+        top = k - 1
+        nt = sizes[top]
+        # clock moves: a -> b on the top variable; lower variables unchanged, or one of
+        # them set to a value (possibly only from a given value)
+        moves = [(a, a + 1) for a in range(nt - 1)] + [(a + 1, a) for a in range(nt - 1)]
+        rng.shuffle(moves)
+        for (a, b) in moves[: (len(moves) if rng.random() < 0.6 else rng.randint(2, len(moves)))]:
+            mts = []
+            for _ in range(rng.choice([1, 1, 2])):
+                pos = []
+                for v in range(k):
+                    if v == top:
+                        pos += [str(a), str(b)]
+                    else:
+                        r = rng.random()
+                        if r < 0.4:
+                            pos += ["x", "="]
+                        elif r < 0.6:
+                            pos += [str(rng.randrange(sizes[v])), str(rng.randrange(sizes[v]))]
+                        else:
+                            pos += [str(rng.randrange(sizes[v])), "x"]
+                mts.append(pos)
+            event(mts)
+        # sometimes an event below the top
+        if k > 1 and rng.random() < 0.5:
+            v0 = rng.randrange(k - 1)
+            pos = []
+            for v in range(k):
+                if v == v0:
+                    a = rng.randrange(sizes[v])
+                    pos += [str(a), str(rng.choice([x for x in range(sizes[v]) if x != a]))]
+                else:
+                    pos += ["x", "="]
+            event([pos])
+        rng.shuffle(evs)
+        u = evs[0]
+        for i, e in enumerate(evs[1:]):
+            n = "u%d_%d" % (rnd, i)
+            ctx.emit("apply %s M union %s %s" % (n, u, e))
+            u = n
+        res = []
+        for _ in range(rng.randint(1, 3)):
+            n = ctx.fresh("r")
+            ctx.emit("satpre %s S %s %s %s %s" % (n, rng.choice(["events", "levels"]),
+                                                  rng.choice(["only", "sub", "suball", "mono"]), s, " ".join(evs)))
+            res.append(n)
+        m = ctx.fresh("m")
+        ctx.emit("apply %s S %s %s %s" % (m, rng.choice(["reach_nofs", "reach_fs"]), s, u))
+        for x in res:
+            ctx.emit("eq %s %s" % (x, m))
+    return ctx.text()
+
+
 REORDERS = ["li", "hi", "sd", "bu", "lc", "lm", "rand", "larc"]
 
 
@@ -2088,6 +2340,22 @@ def gen_C16(rng):
         ctx.emit("applyinto ex minus ep eq")
     misuses.append(subinf)
     misuses.append(subinf)
+    # EV+ division / modulo by a divisor that is zero only at assignments explored late
+    # (high indices), so that partial results exist when the error is raised; the result is
+    # directed into an edge that already holds a function
+    parts = ["coll", "ez", "E1", "min", str(rng.choice([2, 3]))]
+    for _ in range(rng.choice([1, 1, 2])):
+        pos = [str(sz - 1) if rng.random() < 0.8 else str(rng.randrange(sz)) for sz in d1.sizes]
+        parts += [";"] + pos + ["=>", "0"]
+    ctx.emit(" ".join(parts))
+    held.append("ez")
+
+    def evdivzero():
+        # dividend ex is nowhere zero: the shortcut 0/g = 0 skips the zero-divisor check
+        # (recorded finding F2 and its EV+ counterpart), so 0/0 is not generated
+        ctx.emit("applyinto ep %s ex ez" % rng.choice(["div", "mod"]))
+    misuses.append(evdivzero)
+    misuses.append(evdivzero)
     rng.shuffle(misuses)
     for mis in misuses[: rng.randint(3, 8)]:
         mis()
